@@ -13,9 +13,17 @@ open PMF
                          (`ret=none`), or `bad-checkpoint` (and keeps the configuration) when that entry is not reached at a
                          step boundary.
 
+  quiescent              prints `ready=<callbacks still scheduled in the model>`: sent when the real event loop has nothing left to
+                         run, where the answer must be `ready=` (a callback the model has scheduled and the real loop has not —
+                         e.g. `try_killing` after `cancelfut` — would otherwise go unnoticed: the harness only names the
+                         callbacks that the real loop runs)
+
 Every later op acts on the restored instance (the theorems `C04_restored_*` of lean/PlumpyModel/Props/C04.lean are about
 exactly these histories: any events after `restoreCfgN m b`).
 -/
+
+def showCb : Cb → String
+  | .adone f => s!"adone {f}" | .trykill => "trykill" | .usercb r => s!"usercb {if r then "raise" else "ok"}"
 
 partial def loop (h : IO.FS.Stream) (t : DrvPM.Table) (c : Cfg) : IO Unit := do
   let line ← h.getLine
@@ -29,6 +37,9 @@ partial def loop (h : IO.FS.Stream) (t : DrvPM.Table) (c : Cfg) : IO Unit := do
       match id.toNat?, aw.toNat?, DrvPM.pOutcome rest with
       | some i, some a, some o => IO.println s!"fn {i}"; loop h (t ++ [(i, ⟨a, o⟩)]) c
       | _, _, _ => IO.println "bad-fn"; loop h t c
+  | ["quiescent"] =>
+      IO.println s!"ready={",".intercalate (c.ready.map showCb)}"
+      loop h t c
   | ["checkpoint", k, m] =>
       match k.toNat?, m.toNat? with
       | some k, some m =>
